@@ -49,7 +49,8 @@ fn do_input_one_var<S: InterpreterTrait>(
         TypeQualifier::BangSingle => Variant::from(parse_single_input(raw_input)?),
         TypeQualifier::DollarString => Variant::from(raw_input),
         TypeQualifier::PercentInteger => Variant::from(parse_int_input(raw_input)?),
-        _ => todo!("INPUT type {} not supported yet", q),
+        TypeQualifier::AmpersandLong => Variant::from(parse_long_input(raw_input)?),
+        TypeQualifier::HashDouble => Variant::from(parse_double_input(raw_input)?),
     };
     interpreter.context_mut()[index] = new_value;
     Ok(())
@@ -82,15 +83,60 @@ fn parse_single_input(s: String) -> Result<f32, RuntimeError> {
     } else {
         s.parse::<f32>()
             .map_err(|e| RuntimeError::Other(format!("Could not parse {} as float: {}", s, e)))
+            .and_then(|f| {
+                if f.is_finite() {
+                    Ok(f)
+                } else {
+                    Err(RuntimeError::Overflow)
+                }
+            })
     }
 }
 
 fn parse_int_input(s: String) -> Result<i32, RuntimeError> {
-    if s.is_empty() {
-        Ok(0)
+    let value = parse_whole_input(s, "int")?;
+    if value >= (rusty_bit_vec::MIN_INTEGER as f64) && value <= (rusty_bit_vec::MAX_INTEGER as f64) {
+        Ok(value as i32)
     } else {
-        s.parse::<i32>()
-            .map_err(|e| RuntimeError::Other(format!("Could not parse {} as int: {}", s, e)))
+        Err(RuntimeError::Overflow)
+    }
+}
+
+fn parse_long_input(s: String) -> Result<i64, RuntimeError> {
+    let value = parse_whole_input(s, "long")?;
+    if value >= (rusty_bit_vec::MIN_LONG as f64) && value <= (rusty_bit_vec::MAX_LONG as f64) {
+        Ok(value as i64)
+    } else {
+        Err(RuntimeError::Overflow)
+    }
+}
+
+/// Parses the input as a number and rounds it to the nearest whole number.
+fn parse_whole_input(s: String, type_name: &str) -> Result<f64, RuntimeError> {
+    if s.is_empty() {
+        Ok(0.0)
+    } else {
+        s.parse::<f64>()
+            .map(f64::round)
+            .map_err(|e| {
+                RuntimeError::Other(format!("Could not parse {} as {}: {}", s, type_name, e))
+            })
+    }
+}
+
+fn parse_double_input(s: String) -> Result<f64, RuntimeError> {
+    if s.is_empty() {
+        Ok(0.0)
+    } else {
+        s.parse::<f64>()
+            .map_err(|e| RuntimeError::Other(format!("Could not parse {} as double: {}", s, e)))
+            .and_then(|f| {
+                if f.is_finite() {
+                    Ok(f)
+                } else {
+                    Err(RuntimeError::Overflow)
+                }
+            })
     }
 }
 
